@@ -5,13 +5,16 @@
        (Spec.YUV.rgb_plane / rgba_plane; kernels regenerated from vp8.rs on every run -- see Properties/C13.v);
      * alpha: the in-place alpha application loop of decoder.rs equals the container specification's un-filtering for
        all four filters, including first row / first column, and leaves colour bytes alone.
-   Not proved here (inherited links): that the planes fed to the conversion are the RFC 6386 reconstruction (property
-   C02) and that a compressed ALPH payload decodes to the stream the specification defines (property C01).  The composed
+   and (module RI) the read_image glue of decoder.rs, modelled in Model/ReadImage.v and tied by the readimage correspondence on the
+   public API: for every well-formed lossy still the output is the conversion of the key-frame planes woven with the un-filtered
+   alpha plane (raw or lossless: by the C01 theorems), = the composed specification Spec.Still.decode_still, for every prior buffer.
+   Remaining hypothesis (inherited link): that the planes are the RFC 6386 reconstruction (property C02; `vp8 payload = Ok planes`).  The composed
    specification Spec.Still.decode_still (container -> Spec.VP8.decode -> Spec.YUV -> Spec.Alpha, Spec.VP8L for compressed
    alpha) is executable; on every run the whole-still correspondence read_image(file) = Spec.Still.decode_still(file) is
    checked on generated stills with every ALPH variant (harness c05), next to the native comparison with libwebp. *)
 From Coq Require Import ZArith List.
 From WebP Require Import Gen.Kernels Lib.ZBits Lib.Res Spec.YUV Model.Yuv Spec.Alpha Model.Alpha Proofs.C13_yuv Proofs.Alpha_unfilter.
+From WebP Require Spec.Container Model.ReadImage Proofs.Container_bytes Proofs.C01_top Proofs.ReadImage_base Proofs.ReadImage_container Proofs.ReadImage_vp8l Proofs.ReadImage_lossless Proofs.ReadImage_lossy Proofs.ReadImage_stillspec Proofs.ReadImage_wrap Proofs.ReadImage_safe Proofs.ReadImage_frame Proofs.ReadImage_anim.
 Import ListNotations.
 Open Scope Z_scope.
 
@@ -39,3 +42,59 @@ Example alpha_instance :
   /\ apply_alpha FGradient 3 [10; 5; 250; 1; 2; 3] (repeat 7 24)
      = Ok [7; 7; 7; 10; 7; 7; 7; 15; 7; 7; 7; 9; 7; 7; 7; 11; 7; 7; 7; 18; 7; 7; 7; 15].
 Proof. split; vm_compute; reflexivity. Qed.
+
+(* ---------------- read_image glue of decoder.rs (Model/ReadImage.v, tied by the readimage correspondence on the public API): lossy stills ---------------- *)
+Module RI.
+  Import Lib.Res Lib.ZBits Spec.Container Spec.YUV Model.ReadImage Proofs.ReadImage_base Proofs.ReadImage_container Proofs.ReadImage_vp8l Proofs.ReadImage_lossless Proofs.ReadImage_lossy Proofs.ReadImage_stillspec Proofs.ReadImage_wrap Proofs.ReadImage_safe Proofs.ReadImage_frame Proofs.ReadImage_anim.
+
+  (* read_image on a well-formed lossy still (simple or VP8X, with / without ALPH, alpha flag with no ALPH): given the planes of the key frame (vp8 payload = Ok planes: the C02 link, an explicit hypothesis), the output is the no-fancy BT.601 conversion of the planes, woven with the un-filtered alpha plane (raw or lossless ALPH by the C01 theorems), or with 255 when the flag is set without ALPH -- for EVERY prior buffer content; a buffer of any other length is rejected untouched *)
+  Theorem read_image_lossy :
+    forall (vp8 : list Z -> res (Z * Z * list Z * list Z * list Z)) (c : container) (payload : list Z) (w h : Z) (yp up vp px : list Z),
+           wf c = true ->
+           anim c = false ->
+           image_vp8 c = Some payload ->
+           dims c = (w, h) ->
+           vp8 payload = Ok (w, h, yp, up, vp) ->
+           planes_ok w h yp up vp ->
+           lossy_pixels c w h yp up vp = Some px ->
+           alph_ok_for c w h ->
+           exists dec : Container_bytes.M.decoder,
+             Container_bytes.M.new (serialize c) = Ok dec /\
+             (forall buf : list Z, len buf = buffer_size c -> read_image vp8 dec buf = (Ok tt, Some px)) /\
+             (forall buf : list Z, len buf <> buffer_size c -> read_image vp8 dec buf = (Err EImageTooLarge, Some buf)).
+  Proof. exact ReadImage_lossy.read_image_lossy. Qed.
+
+  (* ... and that is what the composed executable specification Spec.Still.decode_still computes from Spec.VP8.decode on the same file *)
+  Theorem read_image_equals_still_spec :
+    forall (vp8 : list Z -> res (Z * Z * list Z * list Z * list Z)) (c : container) (payload : list Z) (w h : Z) 
+             (yp up vp : list Z) (w' h' : Z) (a : bool) (px : list Z),
+           wf c = true ->
+           anim c = false ->
+           image_vp8 c = Some payload ->
+           dims c = (w, h) ->
+           VP8.decode payload = Some (w, h, yp, up, vp) ->
+           vp8 payload = Ok (w, h, yp, up, vp) ->
+           planes_ok w h yp up vp ->
+           alph_ok_for c w h ->
+           SS.decode_still (serialize c) = Some (w', h', a, px) ->
+           (w', h', a) = (w, h, alpha c) /\
+           (exists dec : Container_bytes.M.decoder,
+              Container_bytes.M.new (serialize c) = Ok dec /\
+              Container_bytes.M.dimensions dec = (w', h') /\
+              Container_bytes.M.has_alpha dec = a /\
+              (forall buf : list Z, len buf = buffer_size c -> read_image vp8 dec buf = (Ok tt, Some px)) /\
+              (forall buf : list Z, len buf <> buffer_size c -> read_image vp8 dec buf = (Err EImageTooLarge, Some buf))).
+  Proof. exact ReadImage_wrap.read_image_equals_still_spec. Qed.
+
+  (* a key frame whose size differs from the canvas is rejected with the buffer untouched *)
+  Theorem canvas_mismatch_rejected :
+    forall (vp8 : list Z -> res (Z * Z * list Z * list Z * list Z)) (c : container) (dec : Container_bytes.M.decoder) 
+             (payload : list Z) (w h : Z) (yp up vp buf : list Z),
+           still_view c dec ->
+           image_vp8 c = Some payload ->
+           image_vp8l c = None ->
+           vp8 payload = Ok (w, h, yp, up, vp) ->
+           dims c <> (w, h) -> len buf = buffer_size c -> read_image vp8 dec buf = (Err EInconsistentImageSizes, Some buf).
+  Proof. exact ReadImage_lossy.canvas_mismatch_rejected. Qed.
+
+End RI.
